@@ -728,7 +728,7 @@ def sqrt_scalar(ctx, x):
         s = SQRT(xr)
         _sqrt_cache[key] = s
     # nonlinear: given to the prover with every obligation, kept out of the explorer's feasibility queries
-    ctx.assume(z3.Implies(xr >= 0, z3.And(s >= 0, s * s == xr)), axiom=True)
+    ctx.assume(z3.Implies(xr >= 0, z3.And(s >= 0, s * s == xr)), soft=True)
     return s
 
 
